@@ -10,7 +10,7 @@ Definition plane_t (pl : Plane R) (ray : Ray R) : R := (pl_d pl - vdot (pl_norma
 
 Lemma plane_intersect_eq (pl : Plane R) (ray : Ray R) :
   plane_intersect pl ray =
-    if Rltb (Rabs (plane_den pl ray)) neps then None else if Rltb (plane_t pl ray) 0 then None else Some (plane_t pl ray).
+    if Rltb (Rabs (plane_den pl ray)) neps then None else if Rleb (plane_t pl ray) 0 then None else Some (plane_t pl ray).
 Proof.
   unfold plane_intersect, plane_intersect_tag, plane_t, plane_den. rnum.
   repeat match goal with |- context [if ?b then _ else _] => destruct b end; reflexivity.
@@ -18,21 +18,21 @@ Qed.
 Lemma vdot_project (n : V) (ray : Ray R) (t : R) : vdot n (ray_project ray t) = vdot n (rorigin ray) + t * vdot n (rdir ray).
 Proof. destruct n as [nx ny nz], ray as [[ox oy oz] [dx dy dz]]. vunf. ring. Qed.
 
-(** C02: the reported distance is >= 0 (zero is accepted: the code tests [t < 0]) and the point is on the plane *)
+(** C02: the reported distance is > 0 (since fix fb7e7b9 the code tests [t <= 0]) and the point is on the plane *)
 Lemma plane_intersect_sound (pl : Plane R) (ray : Ray R) (t : R) :
   plane_intersect pl ray = Some t ->
-  0 <= t /\ vdot (pl_normal pl) (ray_project ray t) = pl_d pl /\ neps <= Rabs (plane_den pl ray) /\ t = plane_t pl ray.
+  0 < t /\ vdot (pl_normal pl) (ray_project ray t) = pl_d pl /\ neps <= Rabs (plane_den pl ray) /\ t = plane_t pl ray.
 Proof.
   rewrite plane_intersect_eq. pose proof neps_pos as He.
   destruct (Rltb (Rabs (plane_den pl ray)) neps) eqn:B; [discriminate | apply Rltb_false in B].
-  destruct (Rltb (plane_t pl ray) 0) eqn:B2; [discriminate | apply Rltb_false in B2].
+  destruct (Rleb (plane_t pl ray) 0) eqn:B2; [discriminate | apply Rleb_false in B2].
   intros H. injection H as <-. repeat split; try assumption.
   rewrite vdot_project. unfold plane_t. fold (plane_den pl ray).
   assert (plane_den pl ray <> 0) by (intros E; rewrite E, Rabs_R0 in B; lra). field. assumption.
 Qed.
-(** C03: a crossing of the ray's line with the plane at t >= 0, outside the parallel band, is reported ... *)
+(** C03: a crossing of the ray's line with the plane at t > 0, outside the parallel band, is reported ... *)
 Lemma plane_intersect_complete (pl : Plane R) (ray : Ray R) (t : R) :
-  neps <= Rabs (plane_den pl ray) -> vdot (pl_normal pl) (ray_project ray t) = pl_d pl -> 0 <= t ->
+  neps <= Rabs (plane_den pl ray) -> vdot (pl_normal pl) (ray_project ray t) = pl_d pl -> 0 < t ->
   plane_intersect pl ray = Some t.
 Proof.
   intros B H Ht. pose proof neps_pos as He. rewrite plane_intersect_eq.
@@ -40,18 +40,18 @@ Proof.
   assert (Et : plane_t pl ray = t).
   { rewrite vdot_project in H. unfold plane_t. rewrite <- H. fold (plane_den pl ray). field. assumption. }
   rewrite Et. assert (B1 : Rltb (Rabs (plane_den pl ray)) neps = false) by (apply Rltb_false; lra).
-  assert (B2 : Rltb t 0 = false) by (apply Rltb_false; lra). rewrite B1, B2. reflexivity.
+  assert (B2 : Rleb t 0 = false) by (apply Rleb_false; lra). rewrite B1, B2. reflexivity.
 Qed.
-(** ... a crossing behind the origin is not, nor anything in the parallel band *)
+(** ... a crossing behind or AT the origin is not, nor anything in the parallel band *)
 Lemma plane_intersect_behind (pl : Plane R) (ray : Ray R) (t : R) :
-  vdot (pl_normal pl) (ray_project ray t) = pl_d pl -> t < 0 -> plane_intersect pl ray = None.
+  vdot (pl_normal pl) (ray_project ray t) = pl_d pl -> t <= 0 -> plane_intersect pl ray = None.
 Proof.
   intros H Ht. pose proof neps_pos as He. rewrite plane_intersect_eq.
   destruct (Rltb (Rabs (plane_den pl ray)) neps) eqn:B; [reflexivity | apply Rltb_false in B].
   assert (Hd : plane_den pl ray <> 0) by (intros E; rewrite E, Rabs_R0 in B; lra).
   assert (Et : plane_t pl ray = t).
   { rewrite vdot_project in H. unfold plane_t. rewrite <- H. fold (plane_den pl ray). field. assumption. }
-  rewrite Et. assert (B2 : Rltb t 0 = true) by (apply Rltb_true; lra). rewrite B2. reflexivity.
+  rewrite Et. assert (B2 : Rleb t 0 = true) by (apply Rleb_true; lra). rewrite B2. reflexivity.
 Qed.
 Lemma plane_intersect_parallel (pl : Plane R) (ray : Ray R) :
   Rabs (plane_den pl ray) < neps -> plane_intersect pl ray = None.
@@ -164,10 +164,10 @@ Proof.
     split; [assumption|]. split; [assumption|]. rewrite El. rewrite Ep at 1. rewrite Er. unfold disk_point. rewrite <- Px, <- Py. reflexivity.
 Qed.
 
-(** C02: a reported hit is on the ray at t >= 0, in the disk's plane, inside the annulus and the angular range *)
+(** C02: a reported hit is on the ray at t > 0, in the disk's plane, inside the annulus and the angular range *)
 Lemma disk_basic_sound (d : Disk R) (ray : Ray R) (p : V) (phi : R) : disk_wf d ->
   disk_basic_intersection d ray = Some (p, phi) ->
-  (exists t, 0 <= t /\ p = ray_project ray t) /\ neps <= Rabs (vdot (dk_normal d) (rdir ray)) /\
+  (exists t, 0 < t /\ p = ray_project ray t) /\ neps <= Rabs (vdot (dk_normal d) (rdir ray)) /\
   on_disk d p /\ phi = disk_phi d p.
 Proof.
   intros W. pose proof W as [Hn Hz Hp Hin Hrad]. rewrite disk_basic_eq.
@@ -183,10 +183,10 @@ Proof.
   split; [|reflexivity]. repeat split; assumption.
 Qed.
 
-(** C03: the crossing of the ray's line with the disk's plane at t >= 0, outside the parallel band, inside the
+(** C03: the crossing of the ray's line with the disk's plane at t > 0, outside the parallel band, inside the
     annulus sector, is reported; anything else is not *)
 Lemma disk_basic_complete (d : Disk R) (ray : Ray R) (t : R) : disk_wf d ->
-  neps <= Rabs (vdot (dk_normal d) (rdir ray)) -> 0 <= t -> on_disk d (ray_project ray t) ->
+  neps <= Rabs (vdot (dk_normal d) (rdir ray)) -> 0 < t -> on_disk d (ray_project ray t) ->
   disk_basic_intersection d ray = Some (ray_project ray t, disk_phi d (ray_project ray t)).
 Proof.
   intros W Hden Ht (Hpl & (Hr1 & Hr2) & Hphi). pose proof W as [Hn Hz Hp Hin Hrad]. rewrite disk_basic_eq.
@@ -201,7 +201,7 @@ Proof.
 Qed.
 Lemma disk_basic_miss (d : Disk R) (ray : Ray R) (t : R) : disk_wf d ->
   vdot (dk_normal d) (vsub (ray_project ray t) (dk_centre d)) = 0 ->
-  (t < 0 \/ dk_radius d * dk_radius d < vlen2 (vsub (ray_project ray t) (dk_centre d)) \/
+  (t <= 0 \/ dk_radius d * dk_radius d < vlen2 (vsub (ray_project ray t) (dk_centre d)) \/
    vlen2 (vsub (ray_project ray t) (dk_centre d)) < dk_inner d * dk_inner d \/ dk_phi_max d < disk_phi d (ray_project ray t)) ->
   disk_basic_intersection d ray = None.
 Proof.
@@ -210,8 +210,8 @@ Proof.
   destruct (plane_new_spec (dk_centre d) (dk_normal d) Hn0) as (_ & Hpln). cbv zeta in Hpln. apply Hpln in Hpl.
   destruct (plane_intersect (plane_new (dk_centre d) (dk_normal d)) ray) as [t'|] eqn:E; [|reflexivity].
   pose proof E as E'. apply plane_intersect_sound in E'. destruct E' as (Ht' & Hon' & Hden & _).
-  assert (Ht : 0 <= t).
-  { destruct (Rle_dec 0 t); [assumption|]. rewrite (plane_intersect_behind _ ray t) in E by (try assumption; lra). discriminate. }
+  assert (Ht : 0 < t).
+  { destruct (Rlt_dec 0 t); [assumption|]. rewrite (plane_intersect_behind _ ray t) in E by (try assumption; lra). discriminate. }
   rewrite (plane_intersect_complete _ ray t Hden Hpl Ht) in E. injection E as <-. cbv zeta.
   destruct Hout as [H|[H|[H|H]]]; [lra| | |].
   - apply Rltb_true in H. rewrite H. reflexivity.
@@ -320,7 +320,7 @@ Qed.
 
 Lemma disk_local_spec (d : Disk R) (ray : Ray R) (i : Info R) : disk_wf d ->
   disk_intersect_local_ray d ray = Some i ->
-  (exists t, 0 <= t /\ ip i = ray_project ray t) /\ on_disk d (ip i) /\
+  (exists t, 0 < t /\ ip i = ray_project ray t) /\ on_disk d (ip i) /\
   vdot (dk_normal d) (rdir ray) <> 0 /\
   vdot (inormal i) (rdir ray) < 0 /\ vlen2 (inormal i) = 1 /\
   vdot (inormal i) (idpdu i) = 0 /\ vdot (inormal i) (idpdv i) = 0 /\
@@ -380,7 +380,7 @@ Definition disk_rigid (d : Disk R) : Prop := forall t, dk_transform d = Some t -
     world ray at a non-negative parameter *)
 Lemma disk_simple_intersect_sound (d : Disk R) (ray : Ray R) (pw : V) : disk_wf d -> disk_tr_ok d ->
   disk_simple_intersect d ray = Some pw ->
-  exists pl, pw = disk_to_world d pl /\ on_disk d pl /\ exists s, 0 <= s /\ pw = ray_project ray s.
+  exists pl, pw = disk_to_world d pl /\ on_disk d pl /\ exists s, 0 < s /\ pw = ray_project ray s.
 Proof.
   intros W Ok. unfold disk_simple_intersect, disk_to_world, disk_simple_intersect_local_ray, disk_tr_ok in *.
   destruct (dk_transform d) as [t|] eqn:Et.
@@ -400,7 +400,7 @@ Qed.
 Lemma disk_intersect_tr_spec (d : Disk R) (t : T) (ray : Ray R) (i : Info R) : disk_wf d -> dk_transform d = Some t -> Inv t ->
   disk_intersect d ray = Some i ->
   exists il, disk_intersect_local_ray d (fst (fst (tr_inv_ray t ray))) = Some il /\ i = info_transform il t /\
-    on_disk d (ip il) /\ ip i = tr_pt t (ip il) /\ (exists s, 0 <= s /\ ip i = ray_project ray s) /\
+    on_disk d (ip il) /\ ip i = tr_pt t (ip il) /\ (exists s, 0 < s /\ ip i = ray_project ray s) /\
     vdot (inormal i) (rdir ray) < 0 /\ vdot (inormal i) (idpdu i) = 0 /\ vdot (inormal i) (idpdv i) = 0 /\
     iside i = iside il /\ (rigid t -> vlen2 (inormal i) = 1) /\
     (vdot (tr_normal t (dk_normal d)) (rdir ray) < 0 -> iside i = Front /\ inormal i = tr_normal t (dk_normal d)) /\
@@ -427,7 +427,7 @@ Proof. intros E. unfold disk_intersect. rewrite E. destruct (disk_intersect_loca
     which is the point of the world ray at parameter dt + s *)
 Lemma disk_simple_intersect_complete (d : Disk R) (t : T) (ray : Ray R) (s : R) : disk_wf d -> dk_transform d = Some t -> Inv t ->
   let r' := fst (fst (tr_inv_ray t ray)) in
-  neps <= Rabs (vdot (dk_normal d) (rdir r')) -> 0 <= s -> on_disk d (ray_project r' s) ->
+  neps <= Rabs (vdot (dk_normal d) (rdir r')) -> 0 < s -> on_disk d (ray_project r' s) ->
   disk_simple_intersect d ray = Some (tr_pt t (ray_project r' s)) /\
   exists dt, 0 <= dt /\ tr_pt t (ray_project r' s) = ray_project ray (dt + s).
 Proof.
